@@ -174,6 +174,10 @@ impl Drop for ExitGuard {
     }
 }
 
+/// Pseudo-opcode of a client step that advances the simulated clock by `cas`
+/// seconds (the clock moving while other clients are inside the store).
+pub const TICK: u8 = 0xfe;
+
 pub fn run_program(p: &TProgram, budget: u32) -> THistory {
     let timer = Arc::new(SimTimer::new(1));
     let stack = build_store(&p.knobs, timer.clone());
@@ -216,6 +220,7 @@ pub fn run_program(p: &TProgram, budget: u32) -> THistory {
         let reqs = reqs.clone();
         let store = store.clone();
         let results = results.clone();
+        let timer_t = timer.clone();
         let limit = p.knobs.item_limit;
         let rng_seed = p.knobs.rng_seed ^ ((t as u64 + 1) * 0x9e37_79b9);
         let h = std::thread::Builder::new()
@@ -241,7 +246,15 @@ pub fn run_program(p: &TProgram, budget: u32) -> THistory {
                             panic: None,
                             completed: false,
                         };
-                        let res = catch_unwind(AssertUnwindSafe(|| exec_one(&mut codec, &handler, &bytes)));
+                        let res = catch_unwind(AssertUnwindSafe(|| {
+                            if req.opcode == TICK {
+                                simseam::sched::clock_point();
+                                timer_t.add(req.cas);
+                                None
+                            } else {
+                                exec_one(&mut codec, &handler, &bytes)
+                            }
+                        }));
                         match res {
                             Ok(r) => {
                                 op.resp = r;
